@@ -22,6 +22,8 @@ CONSTANTS
   Models <- MCModels
   InputSets <- MCInputSets
   Pids = {{"p1"}}
+  TopPids = {{"p1"}}
+  StartAny = FALSE
   MaxActions = {budget}
   ActionKinds = {kinds}
   ErrCodes = {{"e1"}}
